@@ -2,4 +2,5 @@
 let machines : (string * Base.machine) list = [
   "event", Event.machine;
   "mutex", Mutex.machine;
+  "semaphore", SemaphoreSpec.machine;
 ]
